@@ -422,8 +422,17 @@ pub fn run(_env: &Env, run: &Run) -> (Stats, Coverage) {
     let sched = crate::props::c16_sched::run_sched(run.tier, &mut st);
     // (d)
     let (known, unknown) = shared_state_inventory();
+    let instrumented = std::env::var("PMC_SCHED_MODE").map(|m| m == "instrumented").unwrap_or(false);
     for u in &unknown {
-        st.note(format!("UNMODELLED shared-state construct (not a scheduling point of the schedule explorer): {}", u));
+        let code = u.splitn(3, ": ").nth(1).unwrap_or(u);
+        let by_shim = ["Atomic", "Mutex", "RwLock", "OnceLock", "Once::", "LazyLock", "sync::atomic", "sync::{"].iter().any(|n| code.contains(n))
+            && !code.contains("static mut")
+            && !code.contains("UnsafeCell");
+        if instrumented && by_shim {
+            st.note(format!("new shared-state construct, scheduled by the instrumented build (sched_sync): {}", u));
+        } else {
+            st.note(format!("UNMODELLED shared-state construct (no scheduling point in the schedule explorer; only the history search can see its effects): {}", u));
+        }
     }
     st.sample(json!({"forms": "UsernameCaseMapped::enforce(\"Abc\") via static/new()/default()/long-lived x &str/String/&String/Cow::Borrowed/Cow::Owned", "expected": "all Ok(\"abc\")"}));
     st.sample(json!({"history": ["Nickname.enforce(U+00A8 a)", "UsernameCaseMapped.compare(Abc, ABC)", "Nickname.enforce(U+00A8 a)"], "expected": "each result equals the result of the same call made first in a fresh process"}));
